@@ -380,6 +380,7 @@ func c19Stress(run *vf.Run) {
 	c19FormatStable(run)
 	c19ConcurrentIDs(run)
 	c19ConcurrentIDPairs(run)
+	c19Reload(run)
 	nasty := []string{"plain", "quo\"te", "new\nline", "--abcdefghij-Z--", "back\\slash", "tab\there", "unié\xff", "{\"json\":1}"}
 	G := vf.Pick(run, 8, 16)
 	N := vf.Pick(run, 150, 1500)
@@ -716,6 +717,69 @@ func cut(s string, n int) string {
 		return s[:n] + "..."
 	}
 	return s
+}
+
+// c19Reload: a configuration reload builds the new WAF and closes the old one while requests are still in
+// flight on it (WAF.Close documents that they are unaffected): a transaction created before the Close and
+// finished after it is a finished transaction like any other - exactly one record, for every writer type.
+func c19Reload(run *vf.Run) {
+	base, err := os.MkdirTemp("", "verif-c19reload-")
+	if err != nil {
+		return
+	}
+	defer os.RemoveAll(base)
+	for _, typ := range []string{"Serial", "Concurrent"} {
+		dir := filepath.Join(base, typ)
+		_ = os.MkdirAll(filepath.Join(dir, "store"), 0o755)
+		logf := filepath.Join(dir, "audit.log")
+		text := fmt.Sprintf("SecRuleEngine On\nSecAuditEngine On\nSecAuditLogParts ABHZ\nSecAuditLogType %s\nSecAuditLogFormat json\nSecAuditLog %s\nSecAuditLogStorageDir %s\nSecAction \"id:1,phase:1,pass,log,auditlog,msg:'m'\"\n", typ, logf, filepath.Join(dir, "store"))
+		oldWAF, err := coraza.NewWAF(coraza.NewWAFConfig().WithDirectives(text))
+		if err != nil {
+			run.Inconclusive("c19Reload: configuration rejected: %v", err)
+			return
+		}
+		before := oldWAF.NewTransactionWithID("finished-before-close")
+		before.ProcessURI("/reload-before", "GET", "HTTP/1.1")
+		before.ProcessRequestHeaders()
+		before.ProcessLogging()
+		_ = before.Close()
+		inflight := oldWAF.NewTransactionWithID("in-flight-at-close")
+		inflight.ProcessURI("/reload-inflight", "GET", "HTTP/1.1")
+		inflight.ProcessRequestHeaders()
+		newWAF, err := coraza.NewWAF(coraza.NewWAFConfig().WithDirectives(text))
+		if err != nil {
+			run.Inconclusive("c19Reload: configuration rejected: %v", err)
+			return
+		}
+		closeAny(oldWAF)
+		inflight.ProcessLogging()
+		_ = inflight.Close()
+		after := newWAF.NewTransactionWithID("on-the-new-waf")
+		after.ProcessURI("/reload-after", "GET", "HTTP/1.1")
+		after.ProcessRequestHeaders()
+		after.ProcessLogging()
+		_ = after.Close()
+		closeAny(newWAF)
+		count := map[string]int{}
+		_ = filepath.Walk(dir, func(p string, info os.FileInfo, err error) error {
+			if err != nil || info.IsDir() || (typ == "Concurrent" && p == logf) {
+				return nil
+			}
+			b, _ := os.ReadFile(p)
+			for _, m := range []string{"/reload-before", "/reload-inflight", "/reload-after"} {
+				count[m] += strings.Count(string(b), "\"uri\":\""+m+"\"")
+			}
+			return nil
+		})
+		run.Eval("reload-" + typ)
+		for _, m := range []string{"/reload-before", "/reload-inflight", "/reload-after"} {
+			if count[m] != 1 {
+				run.Violate(vf.Violation{Signature: "audit:reload-record-count|" + typ, What: fmt.Sprintf("audit log type %s, the old WAF closed while a transaction was in flight on it: the transaction %s has %d records, exactly one is due (records per transaction: %v)", typ, m, count[m], count),
+					Replay: map[string]any{"family": "audit-reload", "type": typ, "directives": text}})
+				break
+			}
+		}
+	}
 }
 
 // c19ConcurrentIDPairs: distinct transaction ids finished in the same second on one WAF keep distinct record files
